@@ -98,3 +98,17 @@ pub fn v_anyhow(args: &[VArg]) -> (r: AnyhowError) { AnyhowError }
 #[verifier::external_body]
 pub fn v_cfg_windows() -> bool { cfg!(target_os = "windows") }
 pub mod ct_codecs { pub use super::{B64Error as Error, Base64}; }
+
+// --- str / String operations of Keyring::parse_config (rule R16): total std functions, results unconstrained
+#[verifier::external_body]
+pub fn v_lines(s: &str) -> (r: Vec<&str>) { s.lines().collect() }
+#[verifier::external_body]
+pub fn v_retain_not_tab(s: &mut String) { s.retain(|c| c != '\t') }
+#[verifier::external_body]
+pub fn v_str_trim<'a>(s: &'a str) -> (r: &'a str) { s.trim() }
+#[verifier::external_body]
+pub fn v_starts_with(s: &str, pat: &str) -> (r: bool) { s.starts_with(pat) }
+#[verifier::external_body]
+pub fn v_starts_with_char(s: &str, c: char) -> (r: bool) { s.starts_with(c) }
+#[verifier::external_body]
+pub fn v_split_once<'a>(s: &'a str, c: char) -> (r: Option<(&'a str, &'a str)>) { s.split_once(c) }
